@@ -24,7 +24,7 @@ use lightning_signer::util::velocity::{VelocityControlIntervalType, VelocityCont
 use lightning_signer::signer::derive::KeyDerivationStyle;
 use lightning_signer::tx::tx::HTLCInfo2;
 use lightning_signer::txoo::proof::TxoProof;
-use lightning_signer::util::clock::ManualClock;
+use lightning_signer::util::clock::{Clock, ManualClock};
 use lightning_signer::util::status::Status;
 use lightning_signer::util::test_utils::key::make_test_pubkey;
 use lightning_signer::util::test_utils::*;
@@ -160,6 +160,9 @@ impl Sim {
     pub fn new_world(first_op: &str) -> Sim {
         let perm = first_op == "world perm";
         let fresh = first_op == "world fresh";
+        // `world nocp`: the node starts at the genesis block instead of the compiled-in checkpoint, so its
+        // tracker stays below the checkpoint height (a signer that has synced only a few blocks)
+        let nocp = first_op == "world nocp";
         let persister: Arc<SimPersister> =
             Arc::new(KVVPersister(CloudKVVStore::new(MemoryKVVStore::new([7u8; 16])), JsonFormat));
         let clock = Arc::new(ManualClock::new(Duration::from_secs(1_600_000_000)));
@@ -167,7 +170,7 @@ impl Sim {
         let config = NodeConfig {
             network: Network::Testnet,
             key_derivation_style: KeyDerivationStyle::Native,
-            use_checkpoints: true,
+            use_checkpoints: !nocp,
             allow_deep_reorgs: true,
         };
         persister.enter().unwrap();
@@ -515,6 +518,42 @@ impl Sim {
         r
     }
 
+    /// `setup_channel` on stub `nn` with a setup the policy refuses (kind 0: holder delay below the
+    /// minimum, 1: counterparty delay above the maximum, 2: deprecated commitment type, 3: push above
+    /// the channel value); the stub must stay a stub
+    pub fn setup_bad(&mut self, nn: u64, kind: u64) -> (Outcome, usize) {
+        use lightning_signer::channel::CommitmentType;
+        let peer = make_test_pubkey(2).serialize();
+        let id = ChannelId::new_from_peer_id_and_oid(&peer, nn);
+        let mut setup = make_test_channel_setup();
+        setup.funding_outpoint.vout = 100 + nn as u32;
+        match kind % 4 {
+            0 => setup.holder_selected_contest_delay = 3,
+            1 => setup.counterparty_selected_contest_delay = 2017,
+            2 => setup.commitment_type = CommitmentType::Anchors,
+            _ => setup.push_value_msat = setup.channel_value_sat * 1000 + 1,
+        }
+        self.txn(|s| s.node().setup_channel(id.clone(), None, setup.clone(), &DerivationPath::master()).map(|_| ()))
+    }
+
+    /// `sign_bolt11_invoice` (the node issues an invoice): payment hash `h`, amount `amt` msat.
+    /// The same hash with another amount is a different invoice and is refused.
+    pub fn sign_invoice(&mut self, h: u64, amt: u64) -> (Outcome, usize) {
+        use lightning_signer::bitcoin::hashes::sha256::Hash as Sha256Hash;
+        use lightning_signer::lightning::types::payment::PaymentSecret;
+        use lightning_signer::lightning_invoice::{Currency, InvoiceBuilder};
+        let now = self.clock.now();
+        self.txn(|s| {
+            let b = InvoiceBuilder::new(Currency::BitcoinTestnet)
+                .duration_since_epoch(now)
+                .payment_hash(Sha256Hash::from_slice(&[0x60 + h as u8; 32]).unwrap())
+                .payment_secret(PaymentSecret([0; 32]))
+                .description("".to_string());
+            let raw = if amt > 0 { b.amount_milli_satoshis(amt).build_raw() } else { b.build_raw() }.map_err(|_| Status::invalid_argument("build"))?;
+            s.node().sign_bolt11_invoice(raw).map(|_| ())
+        })
+    }
+
     pub fn forget(&mut self, which: u64) -> (Outcome, usize) {
         let id = if which == 0 || self.extra_channels.is_empty() {
             self.chan_ctx.channel_id.clone()
@@ -674,6 +713,12 @@ pub fn view(node: &Node, durable_only: bool) -> BTreeMap<String, String> {
             m.insert("node.fee_velocity".into(), format!("{} {}", st.fee_velocity_control.limit, st.fee_velocity_control.velocity()));
         }
         if !durable_only {
+            // issued invoices (receiving side) are written with the next node entry, not by the request itself
+            let mut iss: Vec<String> = st.issued_invoices.iter().map(|(h, p)| format!("{}:{}:{}:{}", hex::encode(h.0), p.amount_msat, hex::encode(p.invoice_hash), p.is_fulfilled)).collect();
+            iss.sort();
+            m.insert("node.issued_invoices".into(), iss.join(","));
+        }
+        if !durable_only {
             let mut pays: Vec<String> = st.payments.iter().map(|(h, p)| format!("{}:{:?}", hex::encode(h.0), p)).collect();
             pays.sort();
             m.insert("node.payments".into(), pays.join(","));
@@ -735,6 +780,8 @@ pub fn exec_op(sim: &mut Sim, op: &str) -> (Outcome, usize) {
         ["shr"] => sim.sign_holder_recovery(),
         ["shx", d, g] => sim.sign_holder_redundant(num(d), *g == "g"),
         ["act"] => sim.activate(),
+        ["setupbad", n, k] => sim.setup_bad(num(n) as u64, num(k) as u64),
+        ["sinv", h, amt] => sim.sign_invoice(num(h) as u64, num(amt) as u64),
         ["rv", d] => sim.revoke(num(d)),
         ["scp", d, var] => sim.sign_cp(num(d), num(var) as u64),
         ["scpr", d, var] => sim.sign_cp_with(num(d), num(var) as u64, true),
@@ -854,7 +901,11 @@ pub fn gen_ops(rng: &mut Rng, len: usize) -> Vec<String> {
             17..=19 => format!("al {} {}", rng.pick(&["add", "set", "rm"]), rng.pick(&["g", "g2", "b", "m", "gg", "x", "gx", "xg", "g2g", "ggd"])),
             20..=21 => format!("ks {}", *rng.pick(&[1000u64, 5_000_000, 100_000_000_000, 0])),
             22 => format!("ksdup {}", rng.range(1, 5000)),
-            23 => format!("newch {}", rng.range(1, 6)),
+            23 => match rng.below(4) {
+                0 => format!("setupbad {} {}", rng.range(1, 6), rng.below(4)),
+                1 => format!("sinv {} {}", rng.below(3), *rng.pick(&[100_000u64, 100_000, 1_000, 0])),
+                _ => format!("newch {}", rng.range(1, 6)),
+            },
             24 => format!("forget {}", rng.below(3)),
             25 => "hb".to_string(),
             26..=27 => format!("blk+ {}", if rng.chance(3, 4) { "g" } else { "b" }),
